@@ -16,6 +16,14 @@ where
     }
 }
 
+#[cfg(feature = "verif")]
+impl<I> WithPositions<I> {
+    /// Returns a reference to the wrapped iterator.
+    pub fn verif_inner(&self) -> &I {
+        &self.iter
+    }
+}
+
 impl<I> Iterator for WithPositions<I>
 where
     I: Iterator<Item = Match> + PositionProvider + Sized,
